@@ -158,21 +158,27 @@ Qed.
 
 (* the events of a pool as generate creates them, when its details are of the right class *)
 Definition pool_ready (ty : dtype) (p : pool) : Prop :=
-  exists on x, p_on p = Some on /\ p_details p = Some x /\ det_kind x = ty.
+  exists on x, p_on p = Some on /\ p_details p = Some x /\ det_kind x = ty /\ str_eqb (p_id p) single_pool_name = false.
 
 Lemma pool_events_ready ty did p : pool_ready ty p -> p_deleg p = Some did ->
   pool_events ty did p = Ok (pool_evs ty p).
 Proof.
-  intros (on & x & Ho & Hx & K) Hd. unfold pool_events, pool_evs. rewrite Hx, Ho, Hd. cbn [new_deleg bind].
+  intros (on & x & Ho & Hx & K & NR) Hd. unfold pool_events, pool_evs. cbn [new_deleg]. rewrite NR. cbn [bind].
+  rewrite Hx, Ho, Hd.
   unfold set_details. cbn [d_fmt d_type d_id d_pool]. rewrite K, dtype_eqb_refl. reflexivity.
 Qed.
 
 Lemma pool_events_foreign ty did p x : p_details p = Some x -> det_kind x <> ty ->
   pool_events ty did p = Err EDelegation.
 Proof.
-  intros Hx K. unfold pool_events. rewrite Hx. cbn [new_deleg bind]. unfold set_details. cbn [d_fmt d_type].
+  intros Hx K. unfold pool_events. cbn [new_deleg]. destruct (str_eqb (p_id p) single_pool_name); [reflexivity|].
+  cbn [bind]. rewrite Hx. unfold set_details. cbn [d_fmt d_type].
   destruct (dtype_eqb (det_kind x) ty) eqn:E; [apply dtype_eqb_eq in E; contradiction|reflexivity].
 Qed.
+
+(* a pool named SINGLE_POOL_NAME cannot be written as a definition: generate refuses it loudly *)
+Lemma pool_events_reserved ty did p : p_id p = single_pool_name -> pool_events ty did p = Err EDelegation.
+Proof. intro H. unfold pool_events. cbn [new_deleg]. rewrite H, str_eqb_refl. reflexivity. Qed.
 
 Lemma gen_pools_flat ty did ps : forall g, Forall (pool_ready ty) ps -> Forall (fun p => p_deleg p = Some did) ps ->
   gen_pools ty did g ps = gen_events ty g (flat_map (pool_evs ty) ps).
@@ -331,9 +337,11 @@ Qed.
 (* ---------------------------------------------------------------------------------------------- *)
 Lemma pool_ok_inv ty p : pool_ok ty p = true ->
   exists did on x, p_type p = ty /\ p_deleg p = Some did /\ p_on p = Some on /\ p_details p = Some x /\
-                   det_kind x = ty /\ p_for p <> [] /\ NoDup (p_for p) /\ ~ In on (p_for p).
+                   det_kind x = ty /\ p_for p <> [] /\ NoDup (p_for p) /\ ~ In on (p_for p) /\
+                   str_eqb (p_id p) single_pool_name = false.
 Proof.
-  unfold pool_ok. intro H. apply andb_true_iff in H as [T H]. apply dtype_eqb_eq in T.
+  unfold pool_ok. intro H. apply andb_true_iff in H as [T H]. apply andb_true_iff in T as [T NR].
+  apply dtype_eqb_eq in T. unfold str_neqb in NR. apply negb_true_iff in NR.
   destruct (p_deleg p) as [did|], (p_on p) as [on|], (p_for p) as [|n r] eqn:F, (p_details p) as [x|]; try discriminate.
   apply andb_true_iff in H as [H NI]. apply andb_true_iff in H as [K ND].
   apply dtype_eqb_eq in K. apply str_nodup_NoDup in ND. apply negb_true_iff in NI. apply str_mem_false in NI.
@@ -348,7 +356,7 @@ Qed.
 
 Lemma pool_ok_ready ty p : pool_ok ty p = true -> pool_ready ty p.
 Proof.
-  intro H. destruct (pool_ok_inv ty p H) as (did & on & x & _ & Hd & Ho & Hx & K & _).
+  intro H. destruct (pool_ok_inv ty p H) as (did & on & x & _ & Hd & Ho & Hx & K & _ & _ & _ & NR).
   exists on, x. tauto.
 Qed.
 
